@@ -85,7 +85,7 @@ TRUSTED = ["CPython semantics of the statement/expression kinds modelled in sa/a
            "sa/ext_models.py: one-line models of the numpy/scipy/cvxpy/sklearn/pint callables used by dreye",
            "exact real arithmetic (no rounding, solver tolerances or qhull robustness)",
            "the spec tables in sa/spec.py and sa/props/*.py transcribed from the property statements"]
-ASSUMPTIONS = ["targets/arrays iterated over have at least one row",
+ASSUMPTIONS = ["targets/arrays iterated over have at least one row; every named axis is non-empty (a test `extent == 0` / `0 in x.shape` is false)",
                "callers respect the documented argument kinds of the abstract configuration under analysis"]
 
 if __name__ == "__main__":
